@@ -249,6 +249,8 @@ func oracleC19(v *View, vd *Verdict) {
 	}
 	sort.SliceStable(ops, func(i, j int) bool { return ops[i].t < ops[j].t })
 	var want []int64
+	var wantArm []int // timers armed in a row before each expected callback (jitter accumulates)
+	rearmed := 0
 	wantDone, wantErr := int64(-1), ""
 	horizon := v.R.Plan.Cfg.HorizonMs * nsMs
 	d := tx.DelayNs
@@ -262,20 +264,45 @@ func oracleC19(v *View, vd *Verdict) {
 			}
 		}
 	} else {
+		if len(tx.Pauses) > 0 {
+			ok := false
+			for _, rec := range v.R.Hist {
+				if rec.Ch == "tx" && rec.Kind == "pausable" {
+					ok = true
+				}
+			}
+			if !ok {
+				return // this tree has no RetryTransaction.Paused
+			}
+		}
+		paused := func(t int64) (bool, bool) { // (paused, too close to a window's edge to tell)
+			for _, pw := range tx.Pauses {
+				for _, e := range pw {
+					if t-e < 50000 && e-t < 50000 {
+						return false, true
+					}
+				}
+				if t >= pw[0] && t < pw[1] {
+					return true, false
+				}
+			}
+			return false, false
+		}
 		last := int64(-1) // last progress
-		n := int64(0)
+		n := int64(0)     // delays counted since
+		ticks := int64(0) // delays expired since (paused ones included)
 		i := 0
 		for {
 			next := int64(-1)
 			if last >= 0 {
-				next = last + (n+1)*d
+				next = last + (ticks+1)*d
 			}
 			if i < len(ops) && (next < 0 || ops[i].t < next) {
 				o := ops[i]
 				i++
 				switch o.op {
 				case "proceed":
-					last, n = o.t, 0
+					last, n, ticks = o.t, 0, 0
 				case "success", "fail":
 					wantDone = o.t
 					wantErr = map[string]string{"success": "nil", "fail": "user-fail"}[o.op]
@@ -288,12 +315,22 @@ func oracleC19(v *View, vd *Verdict) {
 			if next < 0 || next > horizon {
 				break
 			}
+			ticks++
+			if pz, edge := paused(next); edge {
+				vd.Unknown++
+				return
+			} else if pz {
+				rearmed++
+				continue
+			}
 			n++
+			rearmed++
 			if n > int64(tx.Count) {
 				wantDone, wantErr = next, "no-more-retries"
 				break
 			}
 			want = append(want, next)
+			wantArm = append(wantArm, rearmed)
 		}
 	}
 	// calls made after the expected completion are outside this property (C18 covers them)
@@ -312,7 +349,11 @@ func oracleC19(v *View, vd *Verdict) {
 		vd.Add("C19", fmt.Sprintf("C19/%s/callback-count/%s-than-budget", tx.Kind, dir), "retry callback ran %d times, budget says %d (count %d, delay %d ns)", len(got), len(want), tx.Count, d)
 	} else {
 		for k := range want {
-			if diff := got[k].t - want[k]; diff < -tol(k) || diff > tol(k) {
+			kk := k
+			if k < len(wantArm) && wantArm[k] > kk {
+				kk = wantArm[k]
+			}
+			if diff := got[k].t - want[k]; diff < -tol(kk) || diff > tol(kk) {
 				vd.Add("C19", "C19/"+tx.Kind+"/callback-time", "retry callback %d at %d, expected %d (delay %d ns)", k+1, got[k].t, want[k], d)
 				break
 			}
@@ -326,7 +367,7 @@ func oracleC19(v *View, vd *Verdict) {
 	case wantDone >= 0:
 		if doneErr != wantErr {
 			vd.Add("C19", fmt.Sprintf("C19/%s/wrong-result/want=%s,got=%s", tx.Kind, wantErr, doneErr), "finished with %s at %d, expected %s at %d", doneErr, doneT, wantErr, wantDone)
-		} else if diff := doneT - wantDone; diff < -tol(len(want)) || diff > tol(len(want)) {
+		} else if diff := doneT - wantDone; diff < -tol(len(want)+rearmed) || diff > tol(len(want)+rearmed) {
 			vd.Add("C19", "C19/"+tx.Kind+"/completion-time/"+wantErr, "finished (%s) at %d, expected at %d", doneErr, doneT, wantDone)
 		}
 	}
@@ -372,7 +413,23 @@ func genC19(g *Gen, idx int) *Plan {
 	}
 	tx.Threads = [][]TXOp{ops}
 	cfg.HorizonMs = (at+(int64(tx.Count)+3)*d)/1e6 + 10
-	return &Plan{Family: "C19-" + tx.Kind, Cfg: cfg, TX: tx}
+	fam := "C19-" + tx.Kind
+	if tx.Kind == "retry" && idx%3 == 2 {
+		// the peer cannot answer for a while (a sleeping client): delays that expire meanwhile are
+		// neither retried nor counted; 1-2 windows, edges off the tick grid
+		fam += "-paused"
+		from := ops[0].AtNs
+		total := int64(0)
+		for k := int(g.Range(1, 2)); k > 0; k-- {
+			a := from + g.Range(0, int64(tx.Count)+1)*d + d/4 + g.Range(0, d/2)
+			b := a + g.Range(0, 4)*d + d/5 + g.Range(0, d/2)
+			tx.Pauses = append(tx.Pauses, [2]int64{a, b})
+			total += b - from
+			from = b
+		}
+		cfg.HorizonMs += total/1e6 + 10
+	}
+	return &Plan{Family: fam, Cfg: cfg, TX: tx}
 }
 
 // ---------------------------------------------------------------------------------------------
@@ -541,6 +598,11 @@ func genC29(g *Gen, idx int) *Plan {
 	case "idseq":
 		tx.Min = uint16(g.Range(0, 3))
 		tx.Max = tx.Min + uint16(g.Range(0, 4))
+		if idx%4 == 1 {
+			// the top of the 16-bit space: the wrap-around must not depend on uint16 arithmetic
+			tx.Max = 0xFFFF - uint16(g.Range(0, 1))
+			tx.Min = tx.Max - uint16(g.Range(0, 4))
+		}
 		if g.Tier == "thorough" && idx%200 == 199 {
 			tx.Min, tx.Max = 1, 0xFFFF
 			nth, nops = 4, 6
@@ -572,9 +634,9 @@ func init() {
 		Rule:   "harness goroutines drive RetryTransaction / TimedTransaction (delays 0, 1 ns, 1 us, 1 ms, 1 s; count 0-3; failing callbacks; context cancel) calling Success/Fail/Proceed at instants on and around the timer instants, with every yield site of transactions/ enabled so that the timer goroutine can be parked anywhere inside timeout(); every fifth run drives sleepTransaction through Client.Sleep against the scripted gateway; non-trivial = the transaction completed",
 		Gen:    genC18, Oracle: oracleC18, Quick: 3000, Thorough: 300000})
 	Register(&Check{ID: "C19", Level: "exploration",
-		Rule:   "single-threaded RetryTransaction/TimedTransaction timelines: count 0-6, delays 1 ms-10 s (+ sub-ms offset), Proceed/Success/Fail placed at k*delay +- {20 us, 0.5 ms, delay/2}; the recorded virtual timestamps of every retry callback and of completion are compared with a reference timeline (tolerance 2 us per re-armed timer for the seam's jitter); non-trivial = at least one expected callback or completion",
+		Rule:   "single-threaded RetryTransaction/TimedTransaction timelines: count 0-6, delays 1 ms-10 s (+ sub-ms offset), Proceed/Success/Fail placed at k*delay +- {20 us, 0.5 ms, delay/2}; every third retry timeline has 1-2 windows in which Paused() reports true (expired delays neither retried nor counted); the recorded virtual timestamps of every retry callback and of completion are compared with a reference timeline (tolerance 2 us per re-armed timer for the seam's jitter); non-trivial = at least one expected callback or completion",
 		Gen:    genC19, Oracle: oracleC19, Quick: 3000, Thorough: 200000})
 	Register(&Check{ID: "C29", Level: "exploration",
-		Rule:   "2-4 harness goroutines x 2-6 calls on IDSequence (ranges of 1-5 ids, full range in the thorough tier), TransactionStore (both key spaces, unique values) and ClientState, all yield sites enabled; invoke/return stamped with the global history index; checked with porcupine v1.3.0 against sequential models (counter with overflow-on-first-after-wrap, map per key, swap register), 10 s timeout (Unknown counted, never reported); non-trivial = >= 2 completed operations",
+		Rule:   "2-4 harness goroutines x 2-6 calls on IDSequence (ranges of 1-5 ids at the bottom and at the top (max 0xFFFF/0xFFFE) of the 16-bit space, full range in the thorough tier), TransactionStore (both key spaces, unique values) and ClientState, all yield sites enabled; invoke/return stamped with the global history index; checked with porcupine v1.3.0 against sequential models (counter with overflow-on-first-after-wrap, map per key, swap register), 10 s timeout (Unknown counted, never reported); non-trivial = >= 2 completed operations",
 		Gen:    genC29, Oracle: oracleC29, Quick: 3000, Thorough: 300000})
 }
